@@ -29,7 +29,19 @@ Definition kind_of {A} (o : outcome A) : Z := match o with Ok _ => 0 | Err _ => 
 Record bcase := {
   b_pairs : list (Z * Z); b_memLen : Z; b_fill : Z;
   b_create : Z; b_cclasses : list class; b_listnum : Z; b_usedlen : Z;
-  b_map : Z; b_mclasses : list class }.
+  b_map : Z; b_mclasses : list class;
+  b_alloc : list (Z * Z * Z) }.   (* per class: the (size, head, tail) words after the creator's allocations; [] = none *)
+
+(* the creator's allocator writes size / head / tail of a class through the creator's pointers *)
+Fixpoint apply_alloc (m : mem) (cs : list class) (al : list (Z * Z * Z)) : mem :=
+  match cs, al with
+  | c :: cs', (sz, hd, tl) :: al' =>
+    let m := upd m (w32 (cl_off c + off_create_list_size)) sz in
+    let m := upd m (w32 (cl_off c + off_create_list_head)) hd in
+    let m := upd m (w32 (cl_off c + off_create_list_tail)) tl in
+    apply_alloc m cs' al'
+  | _, _ => m
+  end.
 
 (* 0 = agree; 1 = create outcome class differs; 2 = creator geometry differs; 3 = manager header words
    differ; 4 = mapper outcome class differs; 5 = mapper geometry differs *)
@@ -39,7 +51,7 @@ Definition check_bcase (c : bcase) : Z :=
     if negb (b_create c =? 0) then 1
     else if negb (list_eqb class_eqb cs (b_cclasses c)) then 2
     else if negb ((w16 (m' 0) =? b_listnum c) && (m' c_bmCapOffset =? b_usedlen c)) then 3
-    else match map_bm (b_memLen c) m' with
+    else match map_bm (b_memLen c) (apply_alloc m' cs (b_alloc c)) with
          | Ok ms => if negb (b_map c =? 0) then 4
                     else if negb (list_eqb class_eqb ms (b_mclasses c)) then 5 else 0
          | o => if b_map c =? kind_of o then 0 else 4
